@@ -117,12 +117,13 @@ type world struct {
 	geoms   []*geom
 	have    []int // pieces of geoms[1] present at start (agent)
 
-	ch      *child
-	gen     int
-	canary  *peerConn
-	base    stats
-	baseFds int
-	tree    map[string]string
+	ch        *child
+	gen       int
+	canaries  [2]*peerConn // one honest peer per torrent, connected for the child's lifetime
+	canaryIDs [2]string
+	base      stats
+	baseFds   int
+	tree      map[string]string
 
 	last     stats
 	haveLast bool
@@ -131,6 +132,7 @@ type world struct {
 	needRestart bool
 
 	probeRand    *rand.Rand
+	claimed      map[string]string // peer ids of the honest peers connected to the child and the child's own id
 	floodDone    bool
 	allocCount   map[string]int
 	allocClass   map[string]bool // classes that produced an allocation violation in this world
@@ -223,7 +225,36 @@ func (w *world) genSession(r *rand.Rand, idx int) *session {
 			s.Frames = append(s.Frames, frame(pieceRequest(i, 0, g.pieceLen(i))))
 		}
 	}
-	switch k := r.Intn(21); {
+	switch k := r.Intn(23); {
+	case k >= 21:
+		// Impersonation: a well-formed handshake for a held torrent that carries the
+		// peer id of an honest peer already connected to the child (or the child's
+		// own id), with valid or invalid remaining fields. The victim is judged by
+		// the canary oracle on ITS connection.
+		s.Kind = "impersonate"
+		var id string
+		switch r.Intn(4) {
+		case 0, 1:
+			id = w.canaryIDs[s.Target] // the peer connected for this very torrent
+		case 2:
+			id = w.canaryIDs[1-s.Target]
+		default:
+			id = w.ch.peerID
+		}
+		s.PeerID = id
+		m := handshakeMsg(g, id, bitsetBytes(g.N, func(int) bool { return r.Intn(2) == 0 }))
+		switch r.Intn(8) {
+		case 0:
+			m.Bitfield.BitfieldBytes = bitsetBytes(r.Intn(g.N), func(int) bool { return true })
+		case 1:
+			m.Bitfield.Namespace = "other/ns"
+		case 2:
+			m.Bitfield.RemoteBitfieldBytes = map[string][]byte{w.canaryIDs[1-s.Target]: bitsetBytes(g.N, func(int) bool { return true })}
+		case 3:
+			m.Bitfield.InfoHash = other.MetaInfo.InfoHash().String()
+		}
+		s.Handshake = frame(m)
+		leadIn()
 	case k == 20:
 		// Solicited: announce every piece, wait until the child asks for some, then
 		// answer with hostile payloads for every piece it may have asked for (the
@@ -277,7 +308,8 @@ func (w *world) genSession(r *rand.Rand, idx int) *session {
 // ---------------------------------------------------------------------------
 
 func (w *world) spec() childSpec {
-	sp := childSpec{Role: w.role, Namespace: namespace, Limiter: w.limiter}
+	ownID := sha256.Sum256([]byte("child|" + w.name))
+	sp := childSpec{Role: w.role, Namespace: namespace, Limiter: w.limiter, PeerID: hex.EncodeToString(ownID[:20])}
 	for i, g := range w.geoms {
 		f := filepath.Join(w.dir, fmt.Sprintf("blob%d", i))
 		if _, err := os.Stat(f); err != nil {
@@ -346,47 +378,67 @@ func (w *world) start() error {
 	return nil
 }
 
+// canaryID is a function of the world only, so that generated sessions can
+// name it.
+func (w *world) canaryID(t int) string {
+	h := sha256.Sum256([]byte(fmt.Sprintf("canary|%s|%d", w.name, t)))
+	return hex.EncodeToString(h[:20])
+}
+
 func (w *world) connectCanary() error {
-	g := w.geoms[0]
-	pc, err := dialPeer(w.ch.port)
-	if err != nil {
-		return err
+	for t := 0; t < 2; t++ {
+		g := w.geoms[t]
+		pc, err := dialPeer(w.ch.port)
+		if err != nil {
+			return err
+		}
+		w.canaryIDs[t] = w.canaryID(t)
+		if err := pc.send(frame(handshakeMsg(g, w.canaryIDs[t], bitsetBytes(g.N, func(int) bool { return false })))); err != nil {
+			return err
+		}
+		f, ok := pc.next(20 * time.Second)
+		if !ok || f.Err != nil || f.Msg.Type != p2p.Message_BITFIELD {
+			return fmt.Errorf("canary %d handshake not answered: %+v ok=%v", t, f.Err, ok)
+		}
+		w.canaries[t] = pc
 	}
-	r := rand.New(rand.NewSource(int64(w.gen)*7919 + int64(len(w.name))))
-	if err := pc.send(frame(handshakeMsg(g, randPeerID(r), bitsetBytes(g.N, func(int) bool { return false })))); err != nil {
-		return err
-	}
-	f, ok := pc.next(20 * time.Second)
-	if !ok || f.Err != nil || f.Msg.Type != p2p.Message_BITFIELD {
-		return fmt.Errorf("canary handshake not answered: %+v ok=%v", f.Err, ok)
-	}
-	w.canary = pc
+	w.claimed[w.canaryIDs[0]] = "canary"
+	w.claimed[w.canaryIDs[1]] = "canary"
+	w.claimed[w.ch.peerID] = "own"
 	return nil
 }
 
-// canaryCheck requests piece i of the complete torrent on the canary's
-// long-lived connection. why: "" ok | "closed" | "watchdog" | "wrong-bytes".
-func (w *world) canaryCheck(i int) (bool, string) {
-	g := w.geoms[0]
-	if err := w.canary.send(frame(pieceRequest(i, 0, g.pieceLen(i)))); err != nil {
-		return false, "closed"
-	}
-	deadline := time.Now().Add(20 * time.Second)
-	for {
-		f, ok := w.canary.next(time.Until(deadline))
-		if !ok {
-			return false, "watchdog"
-		}
-		if f.Err != nil {
+// canaryCheck requests a complete piece of each torrent on the canaries'
+// long-lived connections (never re-dialled before this check).
+// why: "" ok | "closed" | "watchdog" | "wrong-bytes".
+func (w *world) canaryCheck(k int) (bool, string) {
+	for t := 0; t < 2; t++ {
+		g := w.geoms[t]
+		cp := w.completePieces(t)
+		i := cp[k%len(cp)]
+		pc := w.canaries[t]
+		if err := pc.send(frame(pieceRequest(i, 0, g.pieceLen(i)))); err != nil {
 			return false, "closed"
 		}
-		if f.Msg.Type == p2p.Message_PIECE_PAYLOAD && f.Msg.PiecePayload != nil && int(f.Msg.PiecePayload.Index) == i {
-			if !bytes.Equal(f.Payload, g.piece(i)) {
-				return false, "wrong-bytes"
+		deadline := time.Now().Add(20 * time.Second)
+		got := false
+		for !got {
+			f, ok := pc.next(time.Until(deadline))
+			if !ok {
+				return false, "watchdog"
 			}
-			return true, ""
+			if f.Err != nil {
+				return false, "closed"
+			}
+			if f.Msg.Type == p2p.Message_PIECE_PAYLOAD && f.Msg.PiecePayload != nil && int(f.Msg.PiecePayload.Index) == i {
+				if !bytes.Equal(f.Payload, g.piece(i)) {
+					return false, "wrong-bytes"
+				}
+				got = true
+			}
 		}
 	}
+	return true, ""
 }
 
 type outcome struct {
@@ -490,8 +542,7 @@ func (w *world) runSession(s *session, upto int) outcome {
 	finish := func() outcome {
 		pc.close()
 		// canary: same connection as before the session
-		ci := s.Index % w.geoms[0].N
-		ok, why := w.canaryCheck(ci)
+		ok, why := w.canaryCheck(s.Index)
 		if !ok {
 			if !w.ch.alive() || w.ch.waitExit(10*time.Second) {
 				o.Crashed = true
@@ -501,11 +552,10 @@ func (w *world) runSession(s *session, upto int) outcome {
 			case "watchdog":
 				o.Problems = append(o.Problems, problem{"canary-watchdog", nil})
 			default:
+				// an honest peer's established connection was ended (or served wrong
+				// bytes) by somebody else's input; the child is replaced afterwards
 				o.Problems = append(o.Problems, problem{"canary-" + why, nil})
-				w.canary.close()
-				if err := w.connectCanary(); err != nil {
-					o.Problems = append(o.Problems, problem{"canary-cannot-reconnect", err.Error()})
-				}
+				w.needRestart = true
 			}
 		} else {
 			w.run.Count("canary_checks_ok", 1)
@@ -527,8 +577,21 @@ func (w *world) runSession(s *session, upto int) outcome {
 				o.Crashed = !w.ch.alive() || w.ch.waitExit(10*time.Second)
 				return o
 			}
-			if post.Goroutines <= w.base.Goroutines && w.ch.fds() <= w.baseFds {
+			fds := w.ch.fds()
+			if post.Goroutines <= w.base.Goroutines && fds <= w.baseFds {
 				o.Quiesced = true
+				if (post.Goroutines < w.base.Goroutines || fds < w.baseFds) && !w.needRestart {
+					// fewer than with the honest peers connected: one of THEIR
+					// connections went away after the first canary check
+					if ok, why := w.canaryCheck(s.Index + 1); !ok && why != "watchdog" {
+						if !w.ch.alive() || w.ch.waitExit(10*time.Second) {
+							o.Crashed = true
+							return o
+						}
+						o.Problems = append(o.Problems, problem{"canary-" + why, nil})
+						w.needRestart = true
+					}
+				}
 			}
 			if o.Quiesced || time.Now().After(deadline) {
 				o.AllocDelta = post.TotalAlloc - pre.TotalAlloc
@@ -1130,8 +1193,11 @@ func (w *world) floodCheck(r *rand.Rand) error {
 		}
 		if ok, why := w.canaryCheck(0); !ok && why != "watchdog" && w.ch.alive() {
 			w.run.Violation(w.signature("scheduler", class, "canary-"+why), w.name+"|flood|"+class, desc)
-			w.canary.close()
-			_ = w.connectCanary()
+			w.ch.kill()
+			if err := w.start(); err != nil {
+				return err
+			}
+			continue
 		}
 		if len(refused) > 0 {
 			desc["torrents_refusing_an_honest_newcomer"] = refused
@@ -1399,7 +1465,7 @@ func TestC14(t *testing.T) {
 				w := &world{
 					name: name, role: role, limiter: limiter, run: run, bin: bin,
 					dir:          filepath.Join(dir, name),
-					crashedClass: map[string]int{}, hugeSeen: map[string]bool{}, allocClass: map[string]bool{}, allocCount: map[string]int{}, probeRand: run.Rand("probe/" + name),
+					crashedClass: map[string]int{}, hugeSeen: map[string]bool{}, claimed: map[string]string{}, allocClass: map[string]bool{}, allocCount: map[string]int{}, probeRand: run.Rand("probe/" + name),
 				}
 				_ = os.MkdirAll(w.dir, 0o755)
 				maxLen := 0
@@ -1409,7 +1475,9 @@ func TestC14(t *testing.T) {
 					size := int(pl)*n - r.Intn(int(pl)-1) - 1
 					content := make([]byte, size)
 					r.Read(content)
-					w.geoms = append(w.geoms, newGeom(content, pl, namespace))
+					g := newGeom(content, pl, namespace)
+					g.Claimed = w.claimed
+					w.geoms = append(w.geoms, g)
 					if size > maxLen {
 						maxLen = size
 					}
